@@ -146,6 +146,16 @@ CHECKS["C16"] = dict(
     ref="§5.C16", note="zsh, fish, PowerShell, elvish and nushell are not installed: their scripts are only checked for termination, determinism and mentions. Seven recorded witness classes (known_findings.json).",
     technique="TLA+ spec (GenTree.tla incl. the bash function as an automaton) model-checked with TLC; TLC-generated queries executed in a real bash against the generated script; replies judged by a TLA+ trace spec")
 
+CHECKS["C17"] = dict(
+    text=("Quote.tla holds each generator's escaping functions exactly as written, the literal context every descriptive slot is put in, and "
+          "per shell a lexer automaton for that context (fish, zsh, PowerShell, elvish quoting; nushell comments; stage 2 for fish "
+          "`complete -a` arguments and zsh _arguments specs); TLC checks non-interference (no byte of the escaped text is read as code, no "
+          "expansion, the literal is still open at the end) for every adversarial string within the bound x shell x slot; the real generators "
+          "are run with each string between sentinels in every slot, the emitted literal is compared with the transcription, the bash script "
+          "must not depend on the text at all, and the automaton is run over the actually emitted literal by Trace_Quote.tla."),
+    ref="§5.C17", note="The five non-bash shells are not installed: their automata are transcribed from documented quoting rules (trusted base); such verdicts are labelled model-only.",
+    technique="TLA+ spec (Quote.tla: escaping functions + per-shell lexer automata) model-checked with TLC; real generators' emitted literals compared with the transcription and judged by a TLA+ trace spec")
+
 NOT_YET = "check not built yet in this round (specification module planned in DESIGN.md §4/§5); not claimed until its check exists"
 
 
